@@ -9,9 +9,8 @@ for sid in sorted(os.listdir(os.path.join(HERE, 'seeded'))):
         continue
     m = json.load(open(mp))
     conf = m.get('confirmed') or {}
-    checks = m.get('checks') or {}
     det = []
-    for prop, r in checks.items():
+    for prop, r in list((m.get('checks') or {}).items()) + list((m.get('checks_thorough') or {}).items()):
         v = 'VIOLATION' if r['exit'] == 1 else ('UNDECIDED' if r['exit'] == 2 else 'not detected')
         obl = '; '.join(f"{o['function']}: {o['kind']}" + (' [failing input found]' if o.get('failing_input') else '') for o in r.get('obligations', [])[:2])
         det.append(f"{prop} {r.get('tier', 'quick')}: {v}" + (f' ({obl})' if obl else ''))
